@@ -2,6 +2,7 @@
    Statements only; proofs are in Proofs/Xfr*.v, the model in Model/XfrM.v, the server-side
    specification (headers, versions, streams) in Proofs/XfrSpec.v. *)
 From DV Require Import Base.Prelude Model.XfrM Proofs.XfrSpec.
+From DV Require Proofs.XfrZone Proofs.XfrDiff.
 From DV Require Proofs.XfrSafety Proofs.XfrBasic Proofs.XfrIxfr Proofs.XfrAxfr Proofs.XfrFault Proofs.XfrOrder.
 From Coq Require Import Sorting.Permutation.
 
@@ -171,6 +172,32 @@ Theorem ixfr_question_fault_rejected : forall v0 chain z0 ws1 w' ws2 q qn qt qs,
 Proof. exact XfrFault.ixfr_question_fault_rejected. Qed.
 Print Assumptions ixfr_question_fault_rejected.
 
+(* corrupt serial: after any number of correct difference sequences the next SOA (start of the next
+   deletion section, or the final SOA) does not carry the current serial *)
+Theorem ixfr_corrupt_serial_rejected : forall v0 pre vn bad rest z0 ws,
+  version_wf v0 -> Forall version_wf pre -> zeq z0 (zone_of v0) ->
+  (forall v, In v (v0 :: removelast pre) -> v_soa v <> v_soa vn) ->
+  v_serial vn <> v_serial v0 -> serial_lt (v_serial vn) (v_serial v0) = false ->
+  v_soa bad <> v_soa vn -> v_serial bad <> v_serial (last pre v0) ->
+  chunking tIXFR (soa_rr vn :: diff_seqs v0 pre ++ soa_rr bad :: rest) ws ->
+  exists n, inbound_xfr z0 tIXFR (Some (v_serial v0)) false ws = (Error eBaseMismatch z0, n).
+Proof. exact XfrFault.ixfr_corrupt_serial_rejected. Qed.
+Print Assumptions ixfr_corrupt_serial_rejected.
+
+(* a deletion that does not apply at that point (duplicate of a deleted record; corrupt owner, type
+   or rdata of a deleted record): DeleteNotExact, zone untouched *)
+Theorem ixfr_bad_delete_rejected : forall v0 pre vn D1 r z1 rest z0 ws,
+  version_wf v0 -> Forall version_wf pre -> zeq z0 (zone_of v0) ->
+  (forall v, In v (v0 :: removelast pre ++ [last pre v0]) -> v_soa v <> v_soa vn) ->
+  v_serial vn <> v_serial v0 -> serial_lt (v_serial vn) (v_serial v0) = false ->
+  Forall XfrZone.plain D1 -> XfrZone.plain r ->
+  XfrDiff.dels (zone_of (last pre v0)) D1 = Some z1 ->
+  XfrZone.del1 (look z1 (rkey r)) (r_data r) = None ->
+  chunking tIXFR (soa_rr vn :: diff_seqs v0 pre ++ soa_rr (last pre v0) :: D1 ++ r :: rest) ws ->
+  exists n, inbound_xfr z0 tIXFR (Some (v_serial v0)) false ws = (Error eDeleteNotExact z0, n).
+Proof. exact XfrFault.ixfr_bad_delete_rejected. Qed.
+Print Assumptions ixfr_bad_delete_rejected.
+
 (* UDP IXFR that neither completes nor is the bare-SOA "use TCP" answer *)
 Theorem udp_incomplete_rejected : forall v0 chain z0 w a q,
   chain_ok v0 chain -> zeq z0 (zone_of v0) -> header_ok tIXFR w ->
@@ -254,4 +281,18 @@ Example ex_response_any_order :
 Proof.
   exists [mkRR 2 1 16 0 0 9; mkRR 0 1 2 0 3600 3; mkRR 0 1 2 0 3600 2; mkRR 2 1 16 0 0 9]. split; [|reflexivity].
   intros r. cbn. intuition.
+Qed.
+
+(* the hypotheses of ixfr_bad_delete_rejected hold for a duplicated deletion: ex_v0 -> ex_v1 changes
+   the TTL of (a, A), so both A records are deleted; deleting the first one twice fails *)
+Example ex_dup_delete :
+  let r := mkRR 1 1 1 0 300 4 in
+  XfrDiff.dels (zone_of ex_v0) [r] <> None /\
+  (forall z1, XfrDiff.dels (zone_of ex_v0) [r] = Some z1 -> XfrZone.del1 (look z1 (rkey r)) (r_data r) = None) /\
+  fst (inbound_xfr (zone_of ex_v0) tIXFR (Some (v_serial ex_v0)) false
+         [mkW 0 [] [soa_rr ex_v1; soa_rr ex_v0; r; r; mkRR 1 1 1 0 300 5; soa_rr ex_v1]])
+  = Error eDeleteNotExact (zone_of ex_v0).
+Proof.
+  cbv zeta. split; [vm_compute; discriminate|]. split; [|vm_compute; reflexivity].
+  intros z1 H. vm_compute in H. inversion H; subst. vm_compute. reflexivity.
 Qed.
